@@ -633,6 +633,46 @@ def _nonempty_atomizer(prog, key_of):
     return atomize
 
 
+def r07v(rep, prog):
+    """R07v: the address of a local declared inside a loop body / inner block is stored in a pointer declared outside that block, and the pointer
+    is dereferenced after the block has ended: the pointee's lifetime ended with its block (every iteration destroys it), so the dereference reads
+    a destroyed object (for a tuple holding a std::set: freed tree nodes)."""
+    n = 0
+    for fn in prog.functions:
+        if fn.implicit or fn.body is None or not (fn.file.startswith(env.REPO + '/include') or fn.file.startswith(env.WITNESS + '/positive')):
+            continue
+        decls = {d.decl_id: d for d in fn.walk() if d.k == 'VarDecl'}
+        for a in fn.walk():
+            if a.k != 'BinaryOperator' or a.op != '=' or len(a.c) != 2:
+                continue
+            ptr = ex.var_of(a.c[0])
+            rhs = a.c[1].strip_all()
+            if ptr is None or ptr not in decls or rhs.k != 'UnaryOperator' or rhs.op != '&':
+                continue
+            loc = ex.var_of(rhs.c[0])
+            if loc is None or loc not in decls or rhs.c[0].strip_all().k != 'DeclRefExpr':
+                continue
+            lt = prog.type(prog.vars[loc].get('ty')) or {}
+            if lt.get('ref') or 'static' in (decls[loc].j.get('storage') or ''):
+                continue
+            inner = decls[loc].enclosing('CompoundStmt')
+            outer = decls[ptr].enclosing('CompoundStmt')
+            if inner is None or outer is None or inner is outer or not outer.is_ancestor_of(inner):
+                continue
+            n += 1
+            what = 'a pointer to the block-local `%s` is not dereferenced after the block ended' % prog.vars[loc]['name']
+            late = [d for d in fn.walk() if not inner.is_ancestor_of(d) and fn.cfg is not None and fn.cfg.reaches(a, d) and
+                    ((d.k == 'UnaryOperator' and d.op == '*' and ex.var_of(d.c[0]) == ptr) or
+                     (d.k == 'MemberExpr' and d.j.get('arrow') and d.c and ex.var_of(d.c[0]) == ptr))]
+            if late:
+                rep.violation('R07v', late[0], fn, what, '`%s` (line %d) stores the address of `%s`, which lives only until the end of the block at line %d; `%s` at line %d reads it '
+                              'after that block has ended: the object (and what it owns) is already destroyed' % (
+                                  a.text(30), a.line, prog.vars[loc]['name'], inner.line, late[0].text(30), late[0].line), key='R07v|%s|%s' % (fn.g, prog.vars[ptr]['name']))
+            else:
+                rep.ok('R07v', a, fn, what, 'pointer only used inside the block')
+    return n
+
+
 def r07u(rep, prog, only_files=None, only_members=None):
     """front() / back() of a container that is empty for a valid value (the zero vector has no coordinates; a graph without vertices has empty
     tables) are only evaluated where the container was tested non-empty; the same for dereferencing std::max_element / min_element of a
@@ -1170,6 +1210,7 @@ def run(rep, tier):
     rep.rule('R07s', 'the circuit table of the isometric builder is never dereferenced at end()', floor=0)
     rep.rule('R07t', 'sorted-range algorithms only see sorted ranges', floor=0)
     rep.rule('R07u', 'front() / back() / *max_element only on containers tested non-empty', floor=0)
+    rep.rule('R07v', 'no pointer to a block-local object is dereferenced after its block ended', floor=0)
     rep.rule('R07o', 'comparators handed to std::sort and the other ordering algorithms are irreflexive', floor=2)
     rep.rule('R07j', 'no recursion along the graph in library functions', floor=0)
     rep.rule('R06d', 'the scratch maps of the closing-path search are private to each search (no stale labels, no sharing between TBB tasks)', floor=2)
@@ -1215,6 +1256,7 @@ def run(rep, tier):
         r07s(rep, prog)
         r07t(rep, prog)
         r07u(rep, prog)
+        r07v(rep, prog)
         r07e(rep, prog)
         from . import c04
         sub4 = type(rep)(rep.prop, rep.tier)
@@ -1251,6 +1293,8 @@ def run(rep, tier):
     r07p(prep7, pp)
     r07q(prep7, pp)
     r07r(prep7, pp)
+    r07v(prep7, pp)
+    rep.positive('R07v', 'witness/positive/c07_shapes.cc', any(i.status == 'violation' and i.rule == 'R07v' for i in prep7.instances.values()))
     rep.positive('R07r', 'witness/positive/c07_shapes.cc', any(i.status == 'violation' and i.rule == 'R07r' for i in prep7.instances.values()))
     rep.positive('R07q', 'witness/positive/c07_shapes.cc', any(i.status == 'violation' and i.rule == 'R07q' for i in prep7.instances.values()))
     rep.positive('R07p', 'witness/positive/c07_shapes.cc', any(i.status == 'violation' and i.rule == 'R07p' for i in prep7.instances.values()))
